@@ -313,4 +313,347 @@ theorem devPass_own (p : PassIn) (a a' : DevAcc) (nd : Bytes × Dev) (g : Nat) (
     exact (applyOuts_own _ _ nd.1 _ _ g hv rfl).1
   · rw [applyOuts_store, applyOuts_store]; rfl
 
+/-! ## the frame of one client's share of `cli_post_poll` (used by 2–6) -/
+
+/-- the fields of the world that one client's share of `cli_post_poll` never writes (in particular the client table: the
+    record being served is held outside the table and written back by the loop of `cli_post_poll`) -/
+def kept (w : W) : List Cli × List (Bytes × Bytes) × Nat × Nat × Nat × Nat × Nat × Option Nat × List Pm.Dev2.RxCall :=
+  (w.clients, w.specs, w.nextId, w.nacc, w.nsock, w.npair, w.nfork, w.tmo, w.pendingX)
+
+/-- the descriptor a logged system call is about -/
+def sysFd : Sys → Option Nat
+  | .accept _ => none
+  | .close fd => some fd
+  | .read fd _ => some fd
+  | .write fd _ _ _ => some fd
+
+def isWrite : Sys → Bool
+  | .write _ _ _ _ => true
+  | _ => false
+
+/-- what one client's request processing may do to the queues and the arglist store: nothing (and the client's command is
+    what it was), or — only when the client had no command — one `install`: every device gets its share of actions stamped
+    with this client's id and the fresh arglist id `w.alNext`, the arglist is opened under that id, the counter is
+    incremented, and the client now has the command that refers to it -/
+def Enq (cid : Nat) (w w' : W) (cmd cmd' : Option CmdC) : Prop :=
+  (w'.devs = w.devs ∧ w'.store = w.store ∧ w'.alNext = w.alNext ∧ cmd' = cmd) ∨
+  (cmd = none ∧ ∃ (k : CmdC) (args : List Pm.Dev2.Arg) (com : Nat) (bn : List Bytes) (tele : Bool),
+      cmd' = some k ∧ k.al = w.alNext ∧ w'.alNext = w.alNext + 1 ∧ w'.store = (w.alNext, args) :: w.store ∧
+      w'.devs = w.devs.map (Enq.installDev com bn cid tele w.alNext))
+
+theorem Enq.same {cid : Nat} {w w' : W} {cmd cmd' : Option CmdC} (h1 : w'.devs = w.devs) (h2 : w'.store = w.store)
+    (h3 : w'.alNext = w.alNext) (h4 : cmd' = cmd) : Enq cid w w' cmd cmd' := Or.inl ⟨h1, h2, h3, h4⟩
+
+theorem Enq.trans {cid : Nat} {w w' w'' : W} {cmd cmd' cmd'' : Option CmdC} (h1 : Enq cid w w' cmd cmd')
+    (h2 : Enq cid w' w'' cmd' cmd'') : Enq cid w w'' cmd cmd'' := by
+  rcases h1 with ⟨a1, a2, a3, a4⟩ | ⟨hc, k, args, com, bn, tele, b1, b2, b3, b4, b5⟩
+  · rcases h2 with ⟨c1, c2, c3, c4⟩ | ⟨hc', k, args, com, bn, tele, d1, d2, d3, d4, d5⟩
+    · exact Or.inl ⟨c1.trans a1, c2.trans a2, c3.trans a3, c4.trans a4⟩
+    · refine Or.inr ⟨a4 ▸ hc', k, args, com, bn, tele, d1, ?_, ?_, ?_, ?_⟩
+      · rw [d2, a3]
+      · rw [d3, a3]
+      · rw [d4, a3, a2]
+      · rw [d5, a3, a1]
+  · rcases h2 with ⟨c1, c2, c3, c4⟩ | ⟨hc', _⟩
+    · exact Or.inr ⟨hc, k, args, com, bn, tele, c4.trans b1, b2, c3.trans b3, c2.trans b4, c1.trans b5⟩
+    · rw [b1] at hc'; cases hc'
+
+/-- one stage of a client's share of the pass, from world `w` and record `c` to `r`, logging the system calls `ext` -/
+structure CliIso (w : W) (c : Cli) (r : W × Cli) (ext : List Sys) : Prop where
+  kept : kept r.1 = kept w
+  id : r.2.id = c.id
+  fd : r.2.fd = c.fd
+  quit : c.quit = true → r.2.quit = true
+  enq : Enq c.id w r.1 c.cmd r.2.cmd
+  sys : r.1.sys = w.sys ++ ext
+  sysfd : ∀ s ∈ ext, sysFd s = some c.fd
+  caps : ∀ fd, fd ≠ c.fd → capOf r.1 fd = capOf w fd
+  buf : (∃ b, r.2.toBuf = c.toBuf ++ b) ∨ ∃ s ∈ ext, isWrite s = true
+
+theorem CliIso.refl (w : W) (c : Cli) : CliIso w c (w, c) [] :=
+  ⟨rfl, rfl, rfl, fun h => h, Enq.same rfl rfl rfl rfl, by simp, by simp, fun _ _ => rfl, Or.inl ⟨[], by simp⟩⟩
+
+theorem CliIso.trans {w : W} {c : Cli} {r r' : W × Cli} {e e' : List Sys} (h1 : CliIso w c r e) (h2 : CliIso r.1 r.2 r' e') :
+    CliIso w c r' (e ++ e') where
+  kept := h2.kept.trans h1.kept
+  id := h2.id.trans h1.id
+  fd := h2.fd.trans h1.fd
+  quit := fun h => h2.quit (h1.quit h)
+  enq := h1.enq.trans (h1.id ▸ h2.enq)
+  sys := by rw [h2.sys, h1.sys, List.append_assoc]
+  sysfd := by
+    intro s hs
+    rcases List.mem_append.mp hs with hs | hs
+    · exact h1.sysfd s hs
+    · rw [h2.sysfd s hs, h1.fd]
+  caps := fun fd hfd => (h2.caps fd (by rw [h1.fd]; exact hfd)).trans (h1.caps fd hfd)
+  buf := by
+    rcases h1.buf with ⟨b, hb⟩ | ⟨s, hs, hw⟩
+    · rcases h2.buf with ⟨b', hb'⟩ | ⟨s, hs, hw⟩
+      · exact Or.inl ⟨b ++ b', by rw [hb', hb, List.append_assoc]⟩
+      · exact Or.inr ⟨s, List.mem_append_right _ hs, hw⟩
+    · exact Or.inr ⟨s, List.mem_append_left _ hs, hw⟩
+
+/-- a stage that only touches the record: flags, appended output, consumed input -/
+theorem CliIso.record (w : W) (c c' : Cli) (hid : c'.id = c.id) (hfd : c'.fd = c.fd) (hq : c.quit = true → c'.quit = true)
+    (hcmd : c'.cmd = c.cmd) (hb : ∃ b, c'.toBuf = c.toBuf ++ b) : CliIso w c (w, c') [] :=
+  ⟨rfl, hid, hfd, hq, Enq.same rfl rfl rfl hcmd, by simp, by simp, fun _ _ => rfl, Or.inl hb⟩
+
+theorem capOf_setCap_ne (w : W) (fd fd' : Nat) (v : Int) (h : fd' ≠ fd) : capOf (setCap w fd v) fd' = capOf w fd' := by
+  unfold capOf setCap
+  dsimp only
+  have hb : (fd' == fd) = false := by simpa using h
+  rw [List.lookup_cons, hb]
+  congr 1
+  induction w.caps with
+  | nil => rfl
+  | cons x r ih =>
+    obtain ⟨k, v⟩ := x
+    by_cases hk : k = fd
+    · subst hk
+      have : (fd' == k) = false := by simpa using h
+      simp [List.lookup_cons, this, ih]
+    · by_cases hak : fd' = k
+      · subst hak; simp [hk]
+      · have : (fd' == k) = false := by simpa using hak
+        simp [hk, List.lookup_cons, this, ih]
+
+/-- a stage that logs one system call on the client's own descriptor and touches the record -/
+theorem CliIso.sysOnly (w : W) (c c' : Cli) (s : Sys) (hs : sysFd s = some c.fd) (hid : c'.id = c.id) (hfd : c'.fd = c.fd)
+    (hq : c.quit = true → c'.quit = true) (hcmd : c'.cmd = c.cmd)
+    (hb : (∃ b, c'.toBuf = c.toBuf ++ b) ∨ isWrite s = true) : CliIso w c ({ w with sys := w.sys ++ [s] }, c') [s] :=
+  ⟨rfl, hid, hfd, hq, Enq.same rfl rfl rfl hcmd, rfl, by simpa using hs, fun _ _ => rfl,
+    hb.elim Or.inl (fun h => Or.inr ⟨s, by simp, h⟩)⟩
+
+theorem hwCore_iso (w : W) (c : Cli) : ∃ ext, CliIso w c (ClientPf.hwCore w c) ext := by
+  unfold ClientPf.hwCore
+  split
+  · exact ⟨[], CliIso.refl w c⟩
+  · dsimp only
+    split
+    · exact ⟨_, CliIso.sysOnly w c _ _ rfl rfl rfl (fun _ => rfl) rfl (Or.inr rfl)⟩
+    · split
+      · exact ⟨_, CliIso.sysOnly w c _ _ rfl rfl rfl (fun h => h) rfl (Or.inr rfl)⟩
+      · split
+        · exact ⟨_, CliIso.sysOnly w c _ _ rfl rfl rfl (fun _ => rfl) rfl (Or.inr rfl)⟩
+        · have h := CliIso.sysOnly w c { c with toBuf := c.toBuf.drop (min (capOf w c.fd).toNat c.toBuf.length) }
+            (Sys.write c.fd (c.toBuf.take (min (capOf w c.fd).toNat c.toBuf.length)) false false) rfl rfl rfl (fun h => h) rfl (Or.inr rfl)
+          refine ⟨_, h.kept, h.id, h.fd, h.quit, h.enq, h.sys, h.sysfd, ?_, h.buf⟩
+          intro fd hfd
+          exact capOf_setCap_ne _ _ _ _ hfd
+
+theorem handleWrite_iso (w : W) (c : Cli) : ∃ ext, CliIso w c (handleWrite w c) ext := by
+  rw [ClientPf.handleWrite_eq]
+  obtain ⟨ext, h⟩ := hwCore_iso w (if c.quit then { c with blocking := true } else c)
+  have h0 : CliIso w c (w, if c.quit then { c with blocking := true } else c) [] := by
+    apply CliIso.record
+    · split <;> rfl
+    · split <;> rfl
+    · intro hq; rw [if_pos hq]; exact hq
+    · split <;> rfl
+    · exact ⟨[], by split <;> simp⟩
+  exact ⟨[] ++ ext, h0.trans h⟩
+
+theorem cpRead_iso (w : W) (c : Cli) (e : Option FdEnv) : ∃ ext, CliIso w c (ClientPf.cpRead w c e) ext := by
+  unfold ClientPf.cpRead
+  split
+  · split
+    · exact ⟨_, CliIso.sysOnly w c _ _ rfl rfl rfl (fun _ => rfl) rfl (Or.inl ⟨[], by simp⟩)⟩
+    · split
+      · exact ⟨_, CliIso.sysOnly w c _ _ rfl rfl rfl (fun _ => rfl) rfl (Or.inl ⟨[], by simp⟩)⟩
+      · split
+        · exact ⟨_, CliIso.sysOnly w c _ _ rfl rfl rfl (fun _ => rfl) rfl (Or.inl ⟨[], by simp⟩)⟩
+        · exact ⟨_, CliIso.sysOnly w c _ _ rfl rfl rfl (fun h => h) rfl (Or.inl ⟨[], by simp⟩)⟩
+  · exact ⟨[], CliIso.refl w c⟩
+
+/-! ### `_parse_input`, branch by branch -/
+
+theorem plFin_iso (w : W) (c : Cli) (b : Bytes) : CliIso w c (ClientPf.plFin w c b) [] :=
+  CliIso.record w c _ rfl rfl (fun h => h) rfl ⟨_, rfl⟩
+
+theorem plNodes_iso (w : W) (c : Cli) : CliIso w c (ClientPf.plNodes w c) [] := by
+  unfold ClientPf.plNodes
+  split
+  · exact ⟨rfl, rfl, rfl, fun h => h, Enq.same rfl rfl rfl rfl, by simp, by simp, fun _ _ => rfl, Or.inl ⟨[], by simp⟩⟩
+  · exact ⟨rfl, rfl, rfl, fun h => h, Enq.same rfl rfl rfl rfl, by simp, by simp, fun _ _ => rfl, Or.inl ⟨_, rfl⟩⟩
+
+theorem plTelemetry_iso (w : W) (c : Cli) : CliIso w c (ClientPf.plTelemetry w c) [] :=
+  CliIso.record w c _ rfl rfl (fun h => h) rfl ⟨_, rfl⟩
+
+theorem plExprange_iso (w : W) (c : Cli) : CliIso w c (ClientPf.plExprange w c) [] :=
+  CliIso.record w c _ rfl rfl (fun h => h) rfl ⟨_, rfl⟩
+
+theorem plQuit_iso (w : W) (c : Cli) : ∃ ext, CliIso w c (ClientPf.plQuit w c) ext := by
+  unfold ClientPf.plQuit
+  obtain ⟨ext, h⟩ := handleWrite_iso w (put { c with quit := true } (codeLine 101 ++ crlf))
+  have h0 : CliIso w c (w, put { c with quit := true } (codeLine 101 ++ crlf)) [] :=
+    CliIso.record w c _ rfl rfl (fun _ => rfl) rfl ⟨_, rfl⟩
+  exact ⟨[] ++ ext, h0.trans h⟩
+
+/-- `install` on an idle client -/
+theorem install_iso (w : W) (c : Cli) (com : Com) (names : List Name) (hidle : c.cmd = none) :
+    CliIso w c (install w c com names) [] := by
+  rcases Enq.install_cases w c com names with h | ⟨_, hd, _, hc⟩
+  · rw [h]; exact CliIso.record w c _ rfl rfl (fun h => h) rfl ⟨_, rfl⟩
+  · obtain ⟨hk1, hk2⟩ : kept (install w c com names).1 = kept w ∧
+        (((install w c com names).1.alNext = w.alNext + 1 ∧
+         (install w c com names).1.store = (w.alNext, Reply.freshArgs (names.map ofChars)) :: w.store ∧
+         (install w c com names).1.sys = w.sys ∧ (install w c com names).1.caps = w.caps) ∨
+        install w c com names = Reply.refused w c) := by
+      rw [Reply.install_eq]
+      split
+      · exact ⟨rfl, Or.inr rfl⟩
+      · dsimp only
+        split
+        · exact ⟨rfl, Or.inr rfl⟩
+        · exact ⟨rfl, Or.inl ⟨rfl, rfl, rfl, rfl⟩⟩
+    rcases hk2 with ⟨h1, h2, h3, h4⟩ | href
+    · refine ⟨hk1, by rw [hc], by rw [hc], fun hq => by rw [hc]; exact hq, ?_, by simpa using h3, by simp, ?_, Or.inl ⟨[], by rw [hc]; simp⟩⟩
+      · exact Or.inr ⟨hidle, _, _, _, _, _, by rw [hc], rfl, h1, h2, hd⟩
+      · intro fd _; unfold capOf; rw [h4]
+    · rw [href]; exact CliIso.record w c _ rfl rfl (fun h => h) rfl ⟨_, rfl⟩
+
+theorem plDevice_iso (w : W) (c : Cli) (str : Bytes) : CliIso w c (ClientPf.plDevice w c str) [] := by
+  unfold ClientPf.plDevice
+  split
+  · exact plFin_iso ..
+  · split
+    · exact ⟨rfl, rfl, rfl, fun h => h, Enq.same rfl rfl rfl rfl, by simp, by simp, fun _ _ => rfl, Or.inl ⟨[], by simp⟩⟩
+    · exact plFin_iso ..
+
+theorem plCmd_iso (w : W) (c : Cli) (com : Com) (arg : Bytes) (hidle : c.cmd = none) : CliIso w c (ClientPf.plCmd w c com arg) [] := by
+  unfold ClientPf.plCmd
+  split
+  · exact ⟨rfl, rfl, rfl, fun h => h, Enq.same rfl rfl rfl rfl, by simp, by simp, fun _ _ => rfl, Or.inl ⟨[], by simp⟩⟩
+  · exact plFin_iso ..
+  · dsimp only
+    split
+    · exact plFin_iso ..
+    · exact install_iso w c com _ hidle
+
+theorem plRest_iso (w : W) (c : Cli) (str : Bytes) (hidle : c.cmd = none) : CliIso w c (ClientPf.plRest w c str) [] := by
+  unfold ClientPf.plRest
+  split
+  · split
+    · exact install_iso w c _ _ hidle
+    · split
+      · exact install_iso w c _ _ hidle
+      · split
+        · exact install_iso w c _ _ hidle
+        · exact plDevice_iso ..
+  · exact plCmd_iso w c _ _ hidle
+
+theorem plIdle_iso (w : W) (c : Cli) (str : Bytes) (hidle : c.cmd = none) : ∃ ext, CliIso w c (ClientPf.plIdle w c str) ext := by
+  unfold ClientPf.plIdle
+  split
+  · exact ⟨_, plFin_iso ..⟩
+  · split
+    · exact ⟨_, plNodes_iso ..⟩
+    · split
+      · exact ⟨_, plTelemetry_iso ..⟩
+      · split
+        · exact ⟨_, plExprange_iso ..⟩
+        · split
+          · exact plQuit_iso ..
+          · exact ⟨_, plRest_iso w c str hidle⟩
+
+/-- **one request line** -/
+theorem parseLine_iso (w : W) (c : Cli) (line : Bytes) : ∃ ext, CliIso w c (parseLine w c line) ext := by
+  rw [ClientPf.parseLine_eq]; unfold ClientPf.parseLine'
+  split
+  · exact ⟨[], CliIso.record w c _ rfl rfl (fun h => h) rfl ⟨_, rfl⟩⟩
+  · rename_i h
+    exact plIdle_iso w c _ (by simpa using h)
+
+/-- taking a line out of the input buffer -/
+theorem dropFrom_iso (w : W) (c : Cli) (n : Nat) : CliIso w c (w, { c with fromBuf := c.fromBuf.drop n }) [] :=
+  CliIso.record w c _ rfl rfl (fun h => h) rfl ⟨[], by simp⟩
+
+theorem runLines_iso : ∀ (ls : List Bytes) (w : W) (c : Cli), ∃ ext, CliIso w c (ClientPf.runLines w c ls) ext := by
+  intro ls
+  induction ls with
+  | nil => intro w c; exact ⟨[], CliIso.refl w c⟩
+  | cons l ls ih =>
+    intro w c
+    unfold ClientPf.runLines
+    split
+    · exact ⟨[], CliIso.refl w c⟩
+    · obtain ⟨e1, h1⟩ := parseLine_iso w { c with fromBuf := c.fromBuf.drop l.length } l
+      obtain ⟨e2, h2⟩ := ih (parseLine w { c with fromBuf := c.fromBuf.drop l.length } l).1 (parseLine w { c with fromBuf := c.fromBuf.drop l.length } l).2
+      exact ⟨[] ++ e1 ++ e2, ((dropFrom_iso w c l.length).trans h1).trans h2⟩
+
+theorem handleInput_iso (w : W) (c : Cli) : ∃ ext, CliIso w c (handleInput w c) ext := by
+  rw [ClientPf.handleInput_lines]; exact runLines_iso _ w c
+
+/-! ### one client's whole share of `cli_post_poll` -/
+
+/-- the frame of `clientPass w c e = r`, logging the system calls `ext`: whether the client survives (`alive`) or is
+    destroyed (`gone`) -/
+structure PassIso (w : W) (c : Cli) (r : W × Option Cli) (ext : List Sys) : Prop where
+  kept : kept r.1 = kept w
+  sys : r.1.sys = w.sys ++ ext
+  sysfd : ∀ s ∈ ext, sysFd s = some c.fd
+  caps : ∀ fd, fd ≠ c.fd → capOf r.1 fd = capOf w fd
+  alive : ∀ c', r.2 = some c' → c'.id = c.id ∧ c'.fd = c.fd ∧ (c.quit = true → c'.quit = true) ∧
+      Enq c.id w r.1 c.cmd c'.cmd ∧ ((∃ b, c'.toBuf = c.toBuf ++ b) ∨ ∃ s ∈ ext, isWrite s = true)
+  gone : r.2 = none → r.1.devs = w.devs ∧ r.1.store = w.store ∧ r.1.alNext = w.alNext ∧
+      (r.1.exited = w.exited ∨ r.1.exited = false)
+
+theorem cpDead_iso (w : W) (c : Cli) : PassIso w c (ClientPf.cpDead w c) [Sys.close c.fd] :=
+  ⟨rfl, rfl, by simp [sysFd], fun _ _ => rfl, fun c' h => by simp [ClientPf.cpDead] at h, fun _ => ⟨rfl, rfl, rfl, Or.inl rfl⟩⟩
+
+theorem cpTail_iso (w : W) (c : Cli) (r : W × Cli) (ext : List Sys) (h : CliIso w c r ext) :
+    ∃ ext', PassIso w c (ClientPf.cpTail r) ext' := by
+  have hsome : PassIso w c (r.1, some r.2) ext :=
+    ⟨h.kept, h.sys, h.sysfd, h.caps,
+     fun c' hc' => by
+       simp only [Option.some.injEq] at hc'
+       subst hc'
+       exact ⟨h.id, h.fd, h.quit, h.enq, h.buf⟩,
+     fun hn => by simp at hn⟩
+  unfold ClientPf.cpTail
+  split
+  · exact ⟨ext, hsome⟩
+  · rename_i hex
+    split
+    · rename_i hq
+      have hcmd : r.2.cmd = none := by
+        simp only [Bool.and_eq_true, Option.isNone_iff_eq_none] at hq
+        exact hq.2
+      refine ⟨ext ++ [Sys.close r.2.fd], h.kept, ?_, ?_, h.caps, ?_, ?_⟩
+      · simp [ClientPf.cpDead, h.sys]
+      · intro s hs
+        rcases List.mem_append.mp hs with hs | hs
+        · exact h.sysfd s hs
+        · simp only [List.mem_singleton] at hs; subst hs; simp [sysFd, h.fd]
+      · intro c' hc'; simp [ClientPf.cpDead] at hc'
+      · intro _
+        have henq := h.enq
+        rw [hcmd] at henq
+        rcases henq with ⟨a1, a2, a3, _⟩ | ⟨_, k, _, _, _, _, hk, _⟩
+        · exact ⟨a1, a2, a3, Or.inr (by simpa [ClientPf.cpDead] using hex)⟩
+        · cases hk
+    · exact ⟨ext, hsome⟩
+
+/-- **the frame of `clientPass`** -/
+theorem clientPass_iso (w : W) (c : Cli) (e : Option FdEnv) : ∃ ext, PassIso w c (clientPass w c e) ext := by
+  rw [ClientPf.clientPass_eq]
+  unfold ClientPf.clientPass'
+  dsimp only
+  split
+  · exact ⟨_, cpDead_iso w c⟩
+  · obtain ⟨e1, h1⟩ : ∃ ext, CliIso w c (if (ClientPf.cpRev c e &&& 1 != 0 || ClientPf.cpRev c e &&& 4 != 0) = true then ClientPf.cpRead w c e else (w, c)) ext := by
+      split
+      · exact cpRead_iso w c e
+      · exact ⟨[], CliIso.refl w c⟩
+    generalize (if (ClientPf.cpRev c e &&& 1 != 0 || ClientPf.cpRev c e &&& 4 != 0) = true then ClientPf.cpRead w c e else (w, c)) = r1 at h1 ⊢
+    obtain ⟨e2, h2⟩ : ∃ ext, CliIso w c (if (ClientPf.cpRev c e &&& 2 != 0) = true then handleWrite r1.1 r1.2 else r1) ext := by
+      split
+      · obtain ⟨e2, h2⟩ := handleWrite_iso r1.1 r1.2
+        exact ⟨_, h1.trans h2⟩
+      · exact ⟨_, h1⟩
+    generalize (if (ClientPf.cpRev c e &&& 2 != 0) = true then handleWrite r1.1 r1.2 else r1) = r2 at h2 ⊢
+    obtain ⟨e3, h3⟩ := handleInput_iso r2.1 r2.2
+    exact cpTail_iso w c _ _ (h2.trans h3)
+
 end Pm.Daemon.Isolation
